@@ -393,3 +393,37 @@ def sibling_argument_effects() -> list:
                 if len({repr(v) for v in eff.values()}) > 1:
                     out.append({"class": cname, "family": fam, "group": stem, "effect_alone": eff})
     return out
+
+
+# arguments whose documented values are an enumeration of the standard (ODF 1.2 part 1; independent lists, not read from the
+# library's tables): every value given to the constructor is the value of the attribute, of the property, and comes back
+# from a re-parse
+ENUM_ARGS = [
+    ("Reference", ("refname",), "ref_format", "text:reference-format",
+     ["page", "chapter", "direction", "text", "category-and-value", "caption", "value", "number", "number-no-superior", "number-all-superior"]),
+    ("Note", (), "note_class", "text:note-class", ["footnote", "endnote"]),
+    ("VarPageNumber", (), "select_page", "text:select-page", ["previous", "current", "next"]),
+    ("Frame", (), "anchor_type", "text:anchor-type", ["page", "frame", "paragraph", "char", "as-char"]),
+]
+
+
+def enumerated_argument_values() -> list:
+    import odfdo
+    from odfdo import Element
+
+    out = []
+    for cname, pos, arg, attr, values in ENUM_ARGS:
+        cls = getattr(odfdo, cname, None) or classes().get(cname)
+        if cls is None:
+            continue
+        for v in values:
+            rec = {"class": cname, "arg": arg, "value": v}
+            try:
+                obj = cls(*pos, **{arg: v})
+                again = Element.from_tag(obj.serialize())
+                got = {"attribute": obj.get_attribute(attr), "property": getattr(obj, arg, v), "reparsed": again.get_attribute(attr)}
+            except Exception as ex:  # noqa: BLE001
+                got = {"exc": f"{type(ex).__name__}: {ex}"[:120]}
+            if any(str(x) != v for x in got.values()):
+                out.append({**rec, "got": {k: str(x) for k, x in got.items()}})
+    return out
